@@ -31,6 +31,8 @@ Pool == [ m3   |-> [parent |-> "base", rel |-> -3],     \* real chain
           h2   |-> [parent |-> "g3",   rel |-> -2],     \* a fork of that fork, with more work than everything else:
           h1   |-> [parent |-> "h2",   rel |-> -1],     \* it becomes the best chain and a clean consolidates it,
           h0   |-> [parent |-> "h1",   rel |-> 0],      \* re-hanging g2 g1 below it
+          adv  |-> [parent |-> "m_2",  rel |-> 3],      \* the real chain advances by 150 more headers (one offer):
+                                                        \* the split height is then deeper than the fork depth limit
           late |-> [parent |-> "m_1",  rel |-> 2],      \* fork above the split: unaffected
           orph |-> [parent |-> "nowhere", rel |-> 5],   \* unknown parent
           gen1 |-> [parent |-> "genesis", rel |-> -556766] ]   \* child of genesis while genesis is not held
